@@ -146,6 +146,27 @@ def contracts(fns, per=7):
     return out
 
 
+def head_size(types, vals):
+    """4 + size of the head of the ABI-encoded argument tuple = the entry point's min_calldatasize: a dynamic type
+    (per eth_abi's grammar) occupies one offset word, a static one its whole encoding"""
+    from eth_abi.grammar import parse
+    n = 4
+    for t, v in zip(types, vals):
+        n += 32 if parse(t).is_dynamic else len(encode([t], [v]))
+    return n
+
+
+def truncation_lengths(head, tier):
+    """calldata lengths in [4, head): all of them (thorough) or both sides of every word boundary (quick)"""
+    if tier == "thorough":
+        return list(range(4, head))
+    ls = set()
+    for b in range(4, head + 1, 32):
+        ls.update({b - 1, b, b + 1, b + 16})
+    ls.add(head - 1)
+    return sorted(x for x in ls if 4 <= x < head)
+
+
 def calldata(sig, types, vals):
     from vyper.utils import method_id
     return method_id(sig) + encode(types, vals)
